@@ -122,3 +122,16 @@ PROPS["C11"] = Prop(
     nontrivial=lambda s, impl: " n=0 " not in s and " m=0 " not in s,
 )
 PARAMS["C11"] = {"rule": "flatten / unflatten, owned, & and &mut, for every (N, M) in 0..=6 squared (N >= 1 for unflatten) plus (1,1024), (1024,1), (16,64); 5 element kinds incl. zero-sized and drop-tracked; element order, address and extent of the regrouped value/view."}
+
+PROPS["C03"] = Prop(
+    "C03", ["GA.Props.C03"],
+    [Engine("hist", scen.hist, sig=lambda l: "len%d" % min(40, 5 * (l.count(";") // 5)), miri=12),
+     Engine("seq", scen.seq, sig=lambda l: l.split()[0] + "/" + l.split()[-1]),
+     Engine("regroup", lambda t, s, p: [x for x in scen.regroup(t, s, p) if "kind=tr" in x], sig=lambda l: l.split()[0])],
+    trusted=[KERNEL, TRANSLATOR, HARNESS, OWN_TRUST, MEM_TRUST],
+    assumptions=["histories are panic-free (C04/C05 cover panics); element ids are assigned in creation order",
+                 "flatten/unflatten are modelled at pool level as regrouping of rows (C11 gives the element order); conversions to/from native arrays, tuples, Vec and Box keep the elements (C15/C16 cover the heap side)",
+                 "the correspondence pool holds arrays of length 0..=8; the theorem covers every length and every finite history"],
+    nontrivial=lambda s, impl: s.count(";") >= 3,
+)
+PARAMS["C03"] = {"rule": "seeded random chains (quick: 300 chains of <= 14 ops; thorough: 20000 chains of <= 40 ops) of all 33 pool operations over drop-tracked elements, outputs of one operation feeding the next; full final state (arrays, live iterator ranges, caller-held elements, drop log) compared with the model, then everything is dropped and every created id must have been dropped exactly once. Plus all single sequence / regroup operations with drop-tracked and drop-counted zero-sized elements."}
